@@ -176,7 +176,7 @@ class SbxRun:
             return o
 
         fault = op.get('fault')
-        inputs = op.get('inputs')
+        inputs = op.get('inputs') if kind != 'evaluate' else None     # evaluate() takes no inputs
         # ---- reference first (same inputs, same fault)
         refres = None
         use_ref = self.ref is not None and not op.get('noref')
